@@ -234,6 +234,10 @@ func lkCancel(rec *lkRec, cat *Catalogue, store string, enc *json.Encoder) bool 
 	gcDone := make(chan struct{})
 	go func() { _ = srv.S.VerifGC("lk/repo"); close(gcDone) }()
 	time.Sleep(100 * time.Millisecond) // the collection now holds the token and waits for the held request
+	// a first request without a deadline waits for the collection; the cancellable one queues up behind it
+	firstDone := make(chan HTTPResp, 1)
+	go func() { firstDone <- srv.Do("GET", "/v2/lk/repo/tags/list", nil, nil, true, "first") }()
+	time.Sleep(100 * time.Millisecond)
 	ctx, cancel := context.WithCancel(olareg.VerifWithActor(context.Background(), "waiter"))
 	req, _ := http.NewRequestWithContext(ctx, "GET", "/v2/lk/repo/tags/list", nil)
 	req.Body = http.NoBody
@@ -257,12 +261,14 @@ func lkCancel(rec *lkRec, cat *Catalogue, store string, enc *json.Encoder) bool 
 		ok, note = false, "the waiting request did not return within 3s of its context being cancelled"
 	}
 	close(rec.gateOpen)
-	for _, ch := range []string{"held", "gc"} {
+	for _, ch := range []string{"held", "gc", "first"} {
 		select {
 		case <-heldDone:
 			heldDone = nil
 		case <-gcDone:
 			gcDone = nil
+		case <-firstDone:
+			firstDone = nil
 		case <-time.After(5 * time.Second):
 			ok, note = false, "request or collection did not complete after the held request was released ("+ch+")"
 		}
@@ -309,6 +315,39 @@ func lkCancel(rec *lkRec, cat *Catalogue, store string, enc *json.Encoder) bool 
 		ok, note = false, "Close did not return"
 	}
 	_ = enc.Encode(map[string]any{"k": "cancel", "store": store, "ok": ok, "waited": waited, "status": status, "note": note})
+	return ok
+}
+
+// lkCloseTicker: Close of a server whose collection ticker runs every millisecond, at a random moment of the tick: it
+// returns whatever the ticker is doing (about to start a pass, inside a pass, idle).
+func lkCloseTicker(cat *Catalogue, store string, rounds int, enc *json.Encoder, rng *rand.Rand) bool {
+	ok, note, done := true, "", 0
+	for i := 0; i < rounds && ok; i++ {
+		root := ""
+		if store != "mem" {
+			root = filepath.Join(mkTemp("vh-locks-"), "root")
+			_ = os.MkdirAll(root, 0o755)
+		}
+		cfg := DefaultCfg(store)
+		cfg.GCFreqMs, cfg.GraceMs = 1, 20
+		srv := NewSrv(cfg, root)
+		if i%3 == 0 {
+			_ = srv.Do("GET", "/v2/lk/repo/tags/list", nil, nil, true, "probe")
+		}
+		time.Sleep(time.Duration(rng.Intn(3000)) * time.Microsecond)
+		closed := make(chan struct{})
+		go func() { _ = srv.Close(); close(closed) }()
+		select {
+		case <-closed:
+			done++
+		case <-time.After(5 * time.Second):
+			ok, note = false, fmt.Sprintf("Close of a %s store with the collection ticker running did not return (round %d)", store, i)
+		}
+		if root != "" {
+			_ = os.RemoveAll(filepath.Dir(root))
+		}
+	}
+	_ = enc.Encode(map[string]any{"k": "closeticker", "store": store, "ok": ok, "rounds": done, "note": note})
 	return ok
 }
 
@@ -557,6 +596,11 @@ func cmdLocks(args []string) {
 		}
 		if !lkShutdown(rec, enc) {
 			bad++
+		}
+		for _, st := range splitList(*stores) {
+			if !lkCloseTicker(cat, st, 300, enc, rand.New(rand.NewSource(*seed))) {
+				bad++
+			}
 		}
 		fmt.Fprintf(os.Stderr, "vharness: cancel scenarios, %d failed\n", bad)
 		return
